@@ -25,6 +25,11 @@ def run(ctx):
         z = int(rng.choice(zs)); el = xscorr.element(z)
         j = float(10 ** rng.uniform(-1, 4)); e = float(10 ** rng.uniform(0.5, 5.5))
         w = [None, 0.0, float(10 ** rng.uniform(-0.3, 2))][k % 3]; cni = bool(k % 2)
+        if w:
+            if k % 2:
+                z = int(rng.choice([9, 10, 18, 26])); el = xscorr.element(z)
+            if el.dr_e_res.size:
+                e = float(el.dr_e_res[int(np.argmin(el.dr_cs)) if k % 4 < 2 else int(rng.integers(el.dr_e_res.size))] + rng.normal() * 0.3 * w)
         res, call = basiccorr.run_basic(element=el, j=j, e_kin=e, t_max=1e-3, dr_fwhm=w, CNI=cni)
         J = basiccorr.jac_of(call, z + 1)
         Jm, y0m = basiccorr.model_call(D, z, j, e, w, cni, None)
@@ -35,6 +40,19 @@ def run(ctx):
         if zero_mismatch.any() or not ok:
             ctx.fail("correspondence", f"Jacobian of basic_simulation(Z={z}, j={j}, E={e}, dr_fwhm={w}, CNI={cni}) differs from Basic.rateMatrix (rel {wst:.2e})",
                      inp={"Z": z, "j": j, "E": e, "w": w, "cni": cni})
+    # CNI together with DR on a resonance of the lowest tabulated charge state (fluorine: its 1+ ion has data)
+    for z in (9, 10, 26):
+        el = xscorr.element(z)
+        row = int(np.argmin(el.dr_cs)); e = float(el.dr_e_res[row]); w = float(10 ** rng.uniform(0, 1.3)); j = float(10 ** rng.uniform(0, 3))
+        res, call = basiccorr.run_basic(element=el, j=j, e_kin=e, t_max=1e-3, dr_fwhm=w, CNI=True)
+        J = basiccorr.jac_of(call, z + 1)
+        Jm, y0m = basiccorr.model_call(D, z, j, e, w, True, None)
+        ctx.evaluations += 1
+        ctx.seen(("jac-cni-dr", z, e, w))
+        ok, wst, i = common.compare(J, Jm, 1e-11)
+        if ((J == 0) != (Jm == 0)).any() or not ok or np.any(J[0] != 0):
+            ctx.fail("correspondence", f"Jacobian of basic_simulation(Z={z}, E={e}, dr_fwhm={w}, CNI=True) differs from Basic.rateMatrix / has a non-zero neutral row",
+                     inp={"Z": z, "j": j, "E": e, "w": w, "cni": True})
     ctx.sample({"op": "jacobian", "Z": z, "E": e, "dr_fwhm": w, "CNI": cni, "diag_first": np.diag(J)[:3]})
     ctx.cov["elements"] = zs
 
@@ -83,10 +101,32 @@ def stmt_simulation(z, j, e, w, cni, method, rtol, atol, rng):
         if dev > 1e-9 * s0 + res.t.size * atol + rtol * s0 * 1e-2:
             add("total_conserved", f"total abundance drifts by {dev:.3e} (initial {s0})")
     else:
-        if ulp_diff(N[0], np.full(N.shape[1], N[0, 0])).max() > 4:
+        # the derivative of the neutral row is exactly 0; LSODA/BDF rescale their history arrays, which leaves rounding noise of
+        # a few ulp of the vector norm (observed on the clean tree: 1 ulp on 1.0, 2e-24 on an initial 0.0)
+        if np.abs(N[0] - N[0, 0]).max() > 16 * np.finfo(float).eps * max(1.0, s0):
             add("cni_neutral_constant", f"neutral abundance changes under CNI: {N[0].min()!r}..{N[0].max()!r}")
     if N.min() < -50 * atol * max(1.0, s0) - 50 * rtol * s0 * 1e-3:
         add("undershoot", f"abundance undershoots zero by {N.min():.3e} (atol={atol})")
+    return out
+
+
+def stmt_fixed(z, j, e, w, cni):
+    """simulation statements for one given parameter set (neutrals present, long enough to react)"""
+    import ebisim
+    el = xscorr.element(z)
+    out = []
+    N0 = np.full(z + 1, 1.0 / (z + 1))
+    rate = max(np.abs(np.diag(ebisim.eixs_mat(el, e) + ebisim.rrxs_mat(el, e) + (ebisim.drxs_mat(el, e, w) if w else 0))).max() * j * 1e4 / 1.602e-19, 1e-30)
+    for method in ("LSODA", "Radau"):
+        res = ebisim.basic_simulation(el, j, e, 20.0 / rate, dr_fwhm=w, N_initial=N0.copy(), CNI=cni, solver_kwargs=dict(method=method, rtol=1e-8, atol=1e-12))
+        N = res.N
+        inp = {"Z": z, "j": j, "E": e, "w": w, "cni": cni, "method": method}
+        if cni and np.abs(N[0] - N[0, 0]).max() > 16 * np.finfo(float).eps * max(1.0, N[:, 0].sum()):
+            out.append({"key": {"clause": "cni_neutral_constant", "Z": z, "method": method}, "what": f"neutral abundance changes under CNI (Z={z}, E={e}, dr_fwhm={w}): {N[0].min()!r}..{N[0].max()!r}", "input": inp})
+        if not cni and abs(N.sum(axis=0) - N[:, 0].sum()).max() > 1e-8:
+            out.append({"key": {"clause": "total_conserved", "Z": z, "method": method}, "what": f"total abundance drifts by {abs(N.sum(axis=0) - N[:, 0].sum()).max():.2e}", "input": inp})
+        if N.min() < -1e-9:
+            out.append({"key": {"clause": "undershoot", "Z": z, "method": method}, "what": f"abundance undershoots zero by {N.min():.2e} at atol=1e-12", "input": inp})
     return out
 
 
@@ -97,6 +137,8 @@ def search(ctx):
         inp = f.get("input") or {}
         if "Z" in inp and "E" in inp:
             V += stmt_matrices(int(inp["Z"]), float(inp["E"]), float(inp.get("w") or 10.0))
+            if "cni" in inp:
+                V += stmt_fixed(int(inp["Z"]), float(inp.get("j", 100.0)), float(inp["E"]), inp.get("w"), bool(inp["cni"]))
     zs = range(1, 106) if (ctx.thorough or ctx.failures) else rng.choice(np.arange(1, 106), 12, replace=False)
     for z in zs:
         el = xscorr.element(int(z))
@@ -108,7 +150,11 @@ def search(ctx):
     nsim = 30 if ctx.thorough else 6
     for k in range(nsim):
         z = int(rng.choice([2, 6, 10, 18, 19, 26, 36, 54]))
-        V += stmt_simulation(z, float(10 ** rng.uniform(0, 3)), float(10 ** rng.uniform(2, 4.5)), [None, 15.0][k % 2], bool(k % 3 == 0),
+        ee = float(10 ** rng.uniform(2, 4.5))
+        if k % 2:   # DR on: sit on a resonance (fluorine has data for its 1+ ion)
+            z = int(rng.choice([9, 10, 18, 26])); el_ = xscorr.element(z)
+            ee = float(el_.dr_e_res[int(np.argmin(el_.dr_cs))] + rng.normal() * 3)
+        V += stmt_simulation(z, float(10 ** rng.uniform(0, 3)), ee, [None, 15.0][k % 2], bool(k % 3 == 0),
                              ["LSODA", "Radau", "BDF"][k % 3], float(10 ** rng.uniform(-9, -3)), float(10 ** rng.uniform(-12, -6)), rng)
         ctx.count("simulations")
     return V
